@@ -376,15 +376,16 @@ class ClimateNetwork(GeoNetwork):
                  two nodes are linked in the network.
         """
         #  Flatten and sort correlation measure matrix
-        flat_corr = self.similarity_measure().copy()
-        flat_corr = flat_corr.flatten()
+        #  Only pairs of distinct nodes can be linked: rank the off-diagonal
+        #  similarities (the diagonal is not necessarily the maximum, e.g. the
+        #  mutual information estimator leaves it at zero)
+        similarity = self.similarity_measure()
+        off_diagonal = ~np.eye(similarity.shape[0], dtype=bool)
+        flat_corr = similarity[off_diagonal]
         flat_corr.sort()
 
-        #  Get threshold, exclude the entries on the main diagonal here,
-        #  since they will not be included in the network anyways!
-        threshold = flat_corr[int((1-link_density) * (len(flat_corr)-self.N))]
-
-        #  Clean up
+        index = int((1 - link_density) * len(flat_corr))
+        threshold = flat_corr[min(index, len(flat_corr) - 1)]
         del flat_corr
 
         return threshold
